@@ -29,7 +29,7 @@ def run(prog, tier):
     # the clause C02 shares with C10, decided there (builder = pairwise + declared diagonal; change-point recurrences agree;
     # composites add each component on its own slice)
     from .common import borrow
-    shared = borrow(prog, tier, "C10", {"builder-vs-pairwise", "changepoint-siblings", "composite-structure"}, "kernel-siblings-agree",
+    shared = borrow(prog, tier, "C10", {"builder-vs-pairwise", "changepoint-siblings", "composite-structure", "pairwise-axes"}, "kernel-siblings-agree",
                     "the posterior formula pairs K_xx (builder) with K_qx, K_qq (pairwise call) of the same kernel")
     obs, info = [], []
     obs.extend(shared)
